@@ -5,19 +5,6 @@ From Centro Require Import Base.ArrC19 Model.PreC19.
 Import ListNotations.
 Open Scope Z_scope.
 
-(* the hull precondition is, by definition, "the executable model of the kernel (C02's, compared
-   output for output with the binary by C02's check) never wrote a hull row at or beyond pixidx" *)
-Theorem hull_pre_no_overflow : forall ijv indexes,
-  kernel_pre_hull ijv indexes = true ->
-  snd (Hull.convex_hull_ijv ijv indexes) = false /\ Hull.kernel_accepts ijv indexes = true /\ ijv <> [].
-Proof.
-  intros ijv indexes Hp. unfold kernel_pre_hull in Hp.
-  apply andb_prop in Hp. destruct Hp as [Hp Hov]. apply andb_prop in Hp. destruct Hp as [Hp _].
-  apply andb_prop in Hp. destruct Hp as [Hne Hacc].
-  split; [destruct (snd (Hull.convex_hull_ijv ijv indexes)); [discriminate|reflexivity]|].
-  split; [assumption|]. destruct ijv; [discriminate|discriminate].
-Qed.
-
 (* median: every pixel the coordinate guards let through is inside the three buffers *)
 Theorem median_pixel_offset : forall rows cols rs cs mrows mcols mrs mcs orows ocols ors ocs radius percent y x,
   kernel_pre_median rows cols rs cs mrows mcols mrs mcs orows ocols ors ocs radius percent = true ->
@@ -71,10 +58,6 @@ Proof.
   intros plen qlen pn pext qn qext crows ccols crowext pbuf qbuf crow Hp Lp Lq Lc. unfold kernel_pre_emd in Hp.
   repeat split; try (apply vec_copy_safe; lia). lia.
 Qed.
-
-Example hull_pre_example :
-  kernel_pre_hull [((0,0),1); ((0,2),1); ((2,1),1); ((1,1),1); ((5,5),2)] [2; 1] = true.
-Proof. vm_compute. reflexivity. Qed.
 
 Example median_pre_example : kernel_pre_median 5 7 7 1 5 7 7 1 5 7 7 1 3 50 = true.
 Proof. vm_compute. reflexivity. Qed.
